@@ -106,6 +106,71 @@ _B32_PAD_OLD = """    while (len(cs) * 5) % 8 != 0:
 _B32_PAD_NEW = """    cs += b"=" * (-len(cs) % 8)
 """
 
+# -- round 7: the C23-I refactor (_write_share_data split into _zero_fill / _ensure_container_holds helpers)
+WSD_OLD = "    def _write_share_data(self, f, offset, data):\n        length = len(data)\n        precondition(offset >= 0)\n        data_length = self._read_data_length(f)\n        extra_lease_offset = self._read_extra_lease_offset(f)\n\n        if offset+length >= data_length:\n            # They are expanding their data size.\n\n            if self.DATA_OFFSET+offset+length > extra_lease_offset:\n                # TODO: allow containers to shrink. For now, they remain\n                # large.\n\n                # Their new data won't fit in the current container, so we\n                # have to move the leases. With luck, they're expanding it\n                # more than the size of the extra lease block, which will\n                # minimize the corrupt-the-share window\n                self._change_container_size(f, offset+length)\n                extra_lease_offset = self._read_extra_lease_offset(f)\n\n                # an interrupt here is ok.. the container has been enlarged\n                # but the data remains untouched\n\n            assert self.DATA_OFFSET+offset+length <= extra_lease_offset\n            # Their data now fits in the current container. We must write\n            # their new data and modify the recorded data size.\n\n            # Fill any newly exposed empty space with 0's.\n            if offset > data_length:\n                f.seek(self.DATA_OFFSET+data_length)\n                f.write(b'\\x00'*(offset - data_length))\n                f.flush()\n\n            new_data_length = offset+length\n            self._write_data_length(f, new_data_length)\n            # an interrupt here will result in a corrupted share\n\n        # now all that's left to do is write out their data\n        f.seek(self.DATA_OFFSET+offset)\n        f.write(data)\n        return\n\n"
+
+
+def _wsd_helpers(order=("ensure", "fill"), grow_test="self.DATA_OFFSET+data_end > self._read_extra_lease_offset(f)", keep_assert=True,
+                 fill_call="self._zero_fill(f, data_length, offset)"):
+    calls = {"ensure": "            self._ensure_container_holds(f, new_data_length)\n", "fill": "            %s\n" % fill_call}
+    return ("    def _zero_fill(self, f, start, end):\n"
+            "        if end > start:\n"
+            "            f.seek(self.DATA_OFFSET+start)\n"
+            "            f.write(b'\\x00'*(end - start))\n"
+            "            f.flush()\n\n"
+            "    def _ensure_container_holds(self, f, data_end):\n"
+            "        if %s:\n"
+            "            self._change_container_size(f, data_end)\n" % grow_test
+            + ("        assert self.DATA_OFFSET+data_end <= self._read_extra_lease_offset(f)\n" if keep_assert else "") +
+            "\n    def _write_share_data(self, f, offset, data):\n"
+            "        precondition(offset >= 0)\n"
+            "        data_length = self._read_data_length(f)\n"
+            "        new_data_length = offset + len(data)\n\n"
+            "        if new_data_length >= data_length:\n"
+            + "".join(calls[k] for k in order) +
+            "            self._write_data_length(f, new_data_length)\n\n"
+            "        f.seek(self.DATA_OFFSET+offset)\n"
+            "        f.write(data)\n\n")
+
+
+WSD_REST = [
+    (MUT, "        if offset+length > data_length:\n            # reads beyond the end of the data are truncated. Reads that\n"
+          "            # start beyond the end of the data return an empty string.\n            length = max(0, data_length-offset)\n",
+     "        length = max(0, min(length, data_length-offset))\n"),
+    (MUT, "        data = f.read(length)\n        return data\n", "        return f.read(length)\n"),
+    (MUT, "            if new_length is not None:\n                cur_length = self._read_data_length(f)\n"
+          "                if new_length < cur_length:\n                    self._write_data_length(f, new_length)\n",
+     "            if new_length is not None and new_length < self._read_data_length(f):\n"
+     "                self._write_data_length(f, new_length)\n"),
+]
+
+# -- round 7: the C25-I refactor (lease-slot iteration as generators)
+ENUM_OLD = '    def _get_first_empty_lease_slot(self, f):\n        # return an int with the index of an empty slot, or None if we do not\n        # currently have an empty slot\n\n        for i in range(self._get_num_lease_slots(f)):\n            if self._read_lease_record(f, i) is None:\n                return i\n        return None\n\n    def get_leases(self):\n        """Yields a LeaseInfo instance for all leases."""\n        with open(self.home, \'rb\') as f:\n            for i, lease in self._enumerate_leases(f):\n                yield lease\n\n    def _enumerate_leases(self, f):\n        for i in range(self._get_num_lease_slots(f)):\n            try:\n                data = self._read_lease_record(f, i)\n                if data is not None:\n                    yield i,data\n            except IndexError:\n                return\n\n'
+
+
+def _enum_generators(enum="return ((i, lease) for i, lease in enumerate(self._iter_lease_slots(f)) if lease is not None)",
+                     slots="range(self._get_num_lease_slots(f))", item="self._read_lease_record(f, i)"):
+    return ("    def _iter_lease_slots(self, f):\n"
+            "        for i in %s:\n"
+            "            try:\n"
+            "                yield %s\n"
+            "            except IndexError:\n"
+            "                return\n\n"
+            "    def _iter_leases(self, f):\n"
+            "        return (lease for lease in self._iter_lease_slots(f) if lease is not None)\n\n"
+            "    def _get_first_empty_lease_slot(self, f):\n"
+            "        return next(\n"
+            "            (i for i, lease in enumerate(self._iter_lease_slots(f)) if lease is None),\n"
+            "            None,\n"
+            "        )\n\n"
+            "    def get_leases(self):\n"
+            "        \"\"\"Yields a LeaseInfo instance for all leases.\"\"\"\n"
+            "        with open(self.home, 'rb') as f:\n"
+            "            yield from self._iter_leases(f)\n\n"
+            "    def _enumerate_leases(self, f):\n"
+            "        %s\n\n" % (slots, item, enum))
+
+
 MUTANTS = [
     # ---- C38.1 lease records
     M("lease-reader-names-swapped", LEASE,
@@ -449,6 +514,34 @@ MUTANTS = [
     M("benign-data-grow-on-exact-fit", MUT, "            if self.DATA_OFFSET+offset+length > extra_lease_offset:\n",
       "            if self.DATA_OFFSET+offset+length >= extra_lease_offset:\n", None,
       note="growing on an exact fit moves the block onto itself; the write is still covered"),
+    M("benign-refactor-data-write-helpers-faithful", MUT, WSD_OLD, _wsd_helpers(), None, edits=WSD_REST,
+      note="seeded C23-I done faithfully: the container is enlarged by a helper before another helper zero-fills the gap"),
+    M("benign-refactor-data-write-helpers-keywords", MUT, WSD_OLD, _wsd_helpers(fill_call="self._zero_fill(f, end=offset, start=data_length)"), None,
+      note="the helper's parameters are bound by keyword at the call site"),
+    M("refactor-helpers-fill-before-growth", MUT, WSD_OLD, _wsd_helpers(order=("fill", "ensure")), "C38.14", edits=WSD_REST,
+      note="seeded C23-I as delivered: the zero fill (inside _zero_fill) runs before _ensure_container_holds enlarged the container; "
+           "it lands on the extra-lease block"),
+    M("refactor-helpers-growth-test-forgets-header", MUT, WSD_OLD,
+      _wsd_helpers(grow_test="data_end > self._read_extra_lease_offset(f)", keep_assert=False), "C38.14",
+      note="the growth test inside the helper ignores DATA_OFFSET and the assertion is gone: a write may end inside the lease block"),
+    M("refactor-helpers-fill-overshoots", MUT, WSD_OLD, _wsd_helpers(fill_call="self._zero_fill(f, data_length, self._read_extra_lease_offset(f))"),
+      "C38.14", note="the helper is asked to fill up to the lease offset (DATA_OFFSET not subtracted): the zeros cover the lease block"),
+    M("benign-refactor-lease-generators-faithful", MUT, ENUM_OLD, _enum_generators(), None,
+      note="seeded C25-I done faithfully: _enumerate_leases is a generator expression over enumerate(_iter_lease_slots(f)) that "
+           "keeps the slot number and skips empty slots"),
+    M("benign-refactor-lease-generators-loop", MUT, ENUM_OLD, _enum_generators(
+        enum="for slot, lease in enumerate(self._iter_lease_slots(f)):\n            if lease is None:\n                continue\n"
+             "            yield slot, lease"), None,
+      note="the same as a loop over the helper generator with an early continue"),
+    M("refactor-generators-position-not-slot", MUT, ENUM_OLD, _enum_generators(enum="return enumerate(self._iter_leases(f))"), "C38.11",
+      note="seeded C25-I as delivered: the number handed out is the position among occupied leases; the record written back under "
+           "that number replaces another slot's record"),
+    M("refactor-generators-empty-slots-kept", MUT, ENUM_OLD, _enum_generators(enum="return enumerate(self._iter_lease_slots(f))"), "C38.11",
+      note="no filter on None: empty slots are handed out as leases"),
+    M("refactor-generators-header-slots-only", MUT, ENUM_OLD, _enum_generators(slots="range(4)"), "C38.11",
+      note="the helper generator visits the four header slots only: stored extra leases are never read back"),
+    M("refactor-generators-first-slot-record", MUT, ENUM_OLD, _enum_generators(item="self._read_lease_record(f, 0)"), "C38.11",
+      note="the helper generator reads slot 0 for every slot"),
     # ---- benign
     M("benign-lease-reader-inlined", LEASE, "        values = struct.unpack(IMMUTABLE_FORMAT, data)\n        return cls(nodeid=None, **dict(zip(names, values)))",
       "        return cls(nodeid=None, **dict(zip(names, struct.unpack(IMMUTABLE_FORMAT, data))))", None),
